@@ -1,9 +1,10 @@
 from checks import _level2
+from checks import _sym
 from oracles import level2 as oracle
 
-GEN = ["Tol"]
-LEAN_TARGETS = ["MagpyVerif.Props.C05"]
-PROPS = ["MagpyVerif.Props.C05"]
+GEN = ["Tol", "CylSegGen"] + _sym.GEN
+LEAN_TARGETS = ["MagpyVerif.Props.C05", "MagpyVerif.Gen.CylSegGen"] + _sym.LEAN_TARGETS  # CylSegGen: the regenerated CylinderSegment translation and its `sync_*` theorems against the frozen model
+PROPS = ["MagpyVerif.Props.C05"] + _sym.PROPS
 NOT_SHOWN = {
  "03": ["full getBH pipeline covariance with Sensor observers (proved for position observers; sensors are C04)"],
  "04": ["pixel_agg reductions other than sum/min/max (mean, median, std, ...) are not modelled; the theorem holds for any reduction function of the pixel list, the stream exercises sum/min/max"],
@@ -17,6 +18,7 @@ NOT_SHOWN = {
 
 
 def run(ctx, model_ok):
+    _sym.run(ctx, ctx.scale(70, 2000))
     _level2.run(ctx, oracle.c05_sweep, {"03": 60, "04": 60, "05": 40, "06": 50}["05"], {"03": 2000, "04": 2000, "05": 1200, "06": 1500}["05"], NOT_SHOWN)
     if ctx.driver_ok:
         # the kernel-linearity theorems are about the ports in Model/Kernels.lean: tie them to the real functions on this run too
@@ -25,6 +27,9 @@ def run(ctx, model_ok):
         st.pop("samples")
         ctx.cov["correspondence_kern"] = st
         ctx.cov["traces_validated_against_impl"] = ctx.cov.get("traces_validated_against_impl", 0) + st["rows"]
+    # the CylinderSegment theorems are about Model/CylSeg*.lean: is the frozen translation still what the source says, and does the port agree with the real code?
+    from checks import _cylseg
+    _cylseg.run(ctx, ctx.scale(300, 10000))
 
 
 replay = _level2.replay
